@@ -267,6 +267,13 @@ def rule_recipes(model, rep):
     fn = model.func(H + "cisco", "cisco_type7._cipher")
     rep.check(returns(fn) == ["bytes((value ^ ord(key[(salt + idx) % key_size]) for idx, value in enumerate(data)))"], R, site(H + "cisco", "cisco_type7._cipher"), "; ".join(returns(fn)),
               "byte i is XORed with key[(salt + i) mod len(key)]", witness=W)
+    from pv.norm import single_defs as _sd
+    sd = _sd(fn)
+    ks, ky = sd.get("key_size"), sd.get("key")
+    ok = ks is not None and ky is not None and ast.unparse(ks) in ("len(key)", "len(cls._key)") and ast.unparse(ky) == "cls._key"
+    rep.check(ok, R, site(H + "cisco", "cisco_type7._cipher") + " modulus", f"key = {ast.unparse(ky) if ky is not None else '?'}; key_size = {ast.unparse(ks) if ks is not None else '?'}",
+              "the index wraps at the length of the key table (53), not at any other bound",
+              witness="cisco_type7 with salt + len(password) > 52 (salt=52 and any password; salt=15 and 38 bytes): hash() differs from the IOS encoding and genuine strings no longer verify")
     # cisco pix/asa
     fn = model.func(H + "cisco", "cisco_pix._calc_checksum")
     for f, why in (("secret += repeat_string(user, 4)", "first four characters of the user appended"), ("secret = right_pad_string(secret, pad_size)", "NUL-padded to 16 / 32"),
@@ -295,6 +302,10 @@ def run(model, rep):
     # is hashed) must survive rendering, or the string no longer names the digest that was computed
     from pv.handlers import HandlerTable as _HT
     _t = _HT(model)
+    from . import shared as _shared2
+    from . import c16 as _c16
+    _c16.rule_digest_encoding(model, rep, "C02.i-digest-encoding")
+    _shared2.rule_len_after_encode(model, rep, "C02.h-length-in-bytes", ("passlib.handlers", "passlib.crypto", "libpass.hashers"), minimum=20)
     # the cost settings a digest is computed with are those of the hasher it was asked of: using() never writes them to the parent (rule shared with C09)
     from . import c09 as _c09
     _c09.rule_ab(model, _Renamed(rep, {"C09.b": "C02.g-using-write-target", "C09.a": "C02.g-using-fresh-subclass"}, "C02.x-"))
